@@ -18,6 +18,7 @@ RULE = (
     "configurations reuse_z3_solver off/on (on: two or three interleaved frontends in one thread) and track off/on; "
     "string histories whose model set is the set of substrings of a literal.  Non-trivial: the history contains at "
     "least one add and one judged query; distinct by history hash.  Evidence lists the cache states visited."
+    " Session 4: histories in which the solver is handed a constraint its backend cannot translate (answers after that are judged for soundness against the understood constraints; errors are expected)."
 )
 ASSUMPTIONS = [
     "eval/batch_eval on an unsatisfiable store may raise UnsatError or return nothing (both count as 'no feasible result')",
